@@ -11,7 +11,7 @@ List/dict values carry element kinds; dict literals carry a closed key set.
 """
 import ast
 
-from .source import AnalysisError, norm, dotted, const_str
+from .source import AnalysisError, norm, dotted, const_str, raised_classes
 from .cfg import Flow
 
 UNK = '?'
@@ -861,8 +861,9 @@ class ActionKinds:
                     if isinstance(r.exc, ast.Call):
                         for a in r.exc.args:
                             self.ev(a, st, prod, pvar, sink)
-                    if nm not in allowed_raise:
-                        sink('R8', r, f'raises {nm}; the parse path may only raise ParsingException')
+                    classes = raised_classes(r.exc, fn)
+                    if not classes <= set(allowed_raise) | {'<reraise>'}:
+                        sink('R8', r, f'raises {"/".join(sorted(classes))}; the parse path may only raise ParsingException')
         out = None
         for v in rets:
             out = join(out, v)
